@@ -24,11 +24,12 @@ def run(F):
         if body.j["kind"] == "closure":
             # closures capture `self` by reference in an upvar struct; handled through callers
             pass
-        if body.j.get("safety") == "unsafe":
-            continue
-        if path in NON_ENTRY:
-            continue
-        tps = tracked_params(body)
+        fn = F.fns.get(path, {})
+        # roots of the whole-program walk: the exported API (inherent methods and trait impls).
+        # Internal functions and private helpers are analysed in the contexts the API gives them,
+        # so extracting or inlining a helper does not change what is checked.
+        is_root = bool(fn.get("exported")) and body.j.get("safety") != "unsafe" and path not in NON_ENTRY
+        tps = tracked_params(body) if is_root else []
         if tps:
             stats["bodies"] += 1
         for (i, bt) in tps:
